@@ -335,7 +335,7 @@ class _SerializableContainer(_Container, _Serializable):
                 if self.members[-1].greedy:
                     self.kind = Kind.UNLIMITED
                 elif any(x.is_dynamic for x in self.members):
-                    self.kind = Kind.DYNAMIC
+                    self.kind = max(Kind.DYNAMIC, max(x.kind for x in self.members))
                 else:
                     self.kind = max(x.kind for x in self.members)
 
